@@ -37,8 +37,9 @@ type context struct {
 }
 
 type Type struct {
-	main *context        // main context
-	CR   compresult.Type // cr is the compilation result
+	main  *context        // main context
+	CR    compresult.Type // cr is the compilation result
+	stdin *bufio.Reader   // buffered standard input for READ
 }
 
 // New creates a new virtual machine using memory from m and code and data from cr.
@@ -491,8 +492,10 @@ func (vm *Type) Run(retResult bool) (value.Type, error) {
 			}
 
 		case bytecode.READ:
-			b := bufio.NewReader(os.Stdin)
-			line, err := b.ReadString('\n')
+			if vm.stdin == nil {
+				vm.stdin = bufio.NewReader(os.Stdin)
+			}
+			line, err := vm.stdin.ReadString('\n')
 			if err != nil {
 				return vm.dumpStack(ctxp, ip, fmt.Errorf("read error %w", err))
 			}
